@@ -34,6 +34,30 @@ pub fn project_err<E>(e: &Error<E>) -> J {
 	}
 }
 
+/// the same projected result with every byte offset (code-map spans, error positions and spans) translated by `map`
+pub fn remap_offsets(r: &J, map: &dyn Fn(u64) -> u64) -> J {
+	let mut out = r.clone();
+	let m = |x: &J| json!(x.as_u64().map(map).unwrap_or(u64::MAX));
+	if let Some(cm) = out.get_mut("cm").and_then(|c| c.as_array_mut()) {
+		for e in cm.iter_mut() {
+			let (a, b) = (m(&e[0]), m(&e[1]));
+			e[0] = a;
+			e[1] = b;
+		}
+	}
+	if let Some(err) = out.get_mut("err") {
+		if err.get("pos").is_some() {
+			let p = m(&err["pos"]);
+			err["pos"] = p;
+		}
+		if err.get("span").is_some() {
+			let (a, b) = (m(&err["span"][0]), m(&err["span"][1]));
+			err["span"] = json!([a, b]);
+		}
+	}
+	out
+}
+
 pub fn project_result<E>(r: Result<Result<(Value, CodeMap), Error<E>>, String>) -> J {
 	match r {
 		Err(p) => json!({"panic": p}),
@@ -292,6 +316,38 @@ pub fn replay_parse(rep: &mut Report, rec: &J) {
 		};
 		if !same {
 			rep.mismatch("C01.entrypoints", json!({"what": "entry points disagree", "input": ctx, "entry": name, "observed": got, "parse_str_with": first}));
+		}
+	}
+	// Other transports: the parser counts positions in whatever unit the decoder reports for each character
+	// (DecodedChar::len).  With UTF-16 lengths (2 / 4 bytes), one unit per character and four bytes per character the
+	// outcome must be the same with every offset translated: spans are the source text of the fragment in the
+	// coordinates of the source (C05), errors point at the same character (C07).
+	if first.get("panic").is_none() && rep.counters["parse_vectors"] % 3 == 0 {
+		let transports: [(&str, fn(char) -> usize); 3] = [("utf16", |c| c.len_utf16() * 2), ("chars", |_| 1), ("utf32", |_| 4)];
+		for (tname, len_of) in transports {
+			let mut table: Vec<(u64, u64)> = Vec::with_capacity(s.len() + 1);
+			let (mut a, mut b) = (0u64, 0u64);
+			for c in s.chars() {
+				table.push((a, b));
+				a += c.len_utf8() as u64;
+				b += len_of(c) as u64;
+			}
+			table.push((a, b));
+			let map = |p: u64| table.binary_search_by_key(&p, |x| x.0).map(|i| table[i].1).unwrap_or(u64::MAX);
+			let expected = remap_offsets(&first, &map);
+			let got = project_result(guarded(|| Value::parse_with(s.chars().map(|c| Ok::<_, Infallible>(DecodedChar::new(c, len_of(c)))), o)));
+			rep.count("parse_calls");
+			if got != expected {
+				let aspect = if got["ok"] == json!(true) && expected["ok"] == json!(true) && got["v"] == expected["v"] {
+					"C05.transport"
+				} else if got["ok"] == json!(false) && expected["ok"] == json!(false) {
+					"C07.transport"
+				} else {
+					"C01.entrypoints"
+				};
+				rep.mismatch(aspect, json!({"what": "with character lengths reported in another unit the outcome is not the same outcome with translated offsets", "transport": tname,
+					"input": ctx, "observed": got, "expected": expected}));
+			}
 		}
 	}
 	// pulls (C03): through a counting, non-fused iterator
